@@ -224,6 +224,25 @@ def wl_random(ctx, rng, case):
                 tmp = fn(tmp).digest()
                 want.append(int.from_bytes(tmp[:8], "little"))
             ctx.check(strat[name](k, 4) == want, f"{name} differs from the digest chain (first 8 bytes, little-endian)", key=k)
+    # decorator-built strategies from functions that use their index: recomputed round by round, from depth 1 upwards
+    for k in keys:
+        kb = gen.to_bytes(k)
+        want, tmp = [], gen._salted_int(k, 0)
+        want.append(tmp)
+        for idx in range(1, 5):
+            tmp = gen._salted_int(f"{tmp:x}", idx)
+            want.append(tmp)
+        for d in (1, 2, 5):
+            ctx.check(strat["decorated_int_salted"](k, d) == want[:d], "hash_with_depth_int does not pass index i to round i (round 0 first), or the rounds are not chained on the previous value",
+                      key=k, depth=d, got=strat["decorated_int_salted"](k, d), want=want[:d])
+        wantb, tmpb = [], kb
+        for idx in range(5):
+            tmpb = gen._salted_bytes(tmpb, idx)
+            wantb.append(int.from_bytes(tmpb[:8], "little"))
+        for d in (1, 2, 5):
+            ctx.check(strat["decorated_bytes_salted"](k, d) == wantb[:d], "hash_with_depth_bytes does not pass index i to round i (round 0 first), or the rounds are not chained on the previous digest",
+                      key=k, depth=d)
+        ctx.count("decorator_rounds_recomputed")
     # a structure's hashes() equals its strategy at the structure's depth
     hname, hf = gen.pick_hash(rng, keys)
     est, rate, m, kk = gen.bloom_geometry(rng)
